@@ -208,6 +208,10 @@ def rebuild(a: Atom) -> Poly:
         return trunc8(a[1])
     if k == "sshift":
         return sshift(a[1], a[2])
+    if k == "shr":
+        return shr(a[1], a[2])
+    if k == "call" and a[1] in ("floordiv", "div", "mod"):
+        return call(a[1], *a[2])
     return Poly.atom(a)
 
 
@@ -314,6 +318,9 @@ def shr(x: Poly, k: Poly) -> Poly:
         return div8(x)
     if cv == 0:
         return x
+    xv = x.const_value()
+    if xv is not None and cv is not None and cv >= 0:
+        return C(xv >> cv)
     return Poly.atom(("shr", x, k))
 
 
@@ -330,6 +337,10 @@ def sshift(x: Poly, k: Poly) -> Poly:
 
 
 def call(name: str, *args: Poly) -> Poly:
+    if name in ("floordiv", "div", "mod") and len(args) == 2:
+        a, b = args[0].const_value(), args[1].const_value()
+        if a is not None and b is not None and b != 0:
+            return C(a // b) if name != "mod" else C(a % b)
     return Poly.atom(("call", name, tuple(args)))
 
 
@@ -377,6 +388,22 @@ def show_atom(a: Atom) -> str:
         return f"{k}({show(a[1])}, {show(a[2])})"
     if k == "call":
         return f"{a[1]}(" + ", ".join(show(x) for x in a[2]) + ")"
+    if k == "mcall":
+        return f"{show(a[2][0])}.{a[1]}(" + ", ".join(show(x) for x in a[2][1:]) + ")"
+    if k == "kw":
+        return f"{a[1]}={show(a[2])}"
+    if k == "str":
+        return repr(a[1])
+    if k == "none":
+        return "None"
+    if k == "tpl":
+        return "f'" + "".join(x if isinstance(x, str) else "{" + show(x) + "}" for x in a[1]) + "'"
+    if k == "tuple":
+        return "(" + ", ".join(show(x) for x in a[1]) + ")"
+    if k == "attr":
+        return f"{show(a[1])}.{a[2]}"
+    if k == "load":
+        return f"{a[1] if isinstance(a[1], str) else show(a[1])}[{show(a[2])}]"
     if k == "opaque":
         return f"<{a[1]}>"
     return repr(a)
